@@ -98,8 +98,20 @@ impl TransactionOutputAmountBuilder {
         multiasset: &MultiAsset,
         data_cost: &DataCost,
     ) -> Result<TransactionOutputAmountBuilder, JsError> {
+        // The calculator measures a placeholder base address (57 bytes). An address that is longer
+        // (Byron with a derivation path, pointer with large naturals) makes the output larger than
+        // what was measured, so the output's own address is used then; for addresses up to that
+        // size the placeholder stays, and with it the amounts callers have seen so far.
+        let longer_address = if self.address.to_bytes().len() > 57 {
+            Some(&self.address)
+        } else {
+            None
+        };
         // TODO: double ada calculation needs to check if it redundant
         let mut calc = MinOutputAdaCalculator::new_empty(data_cost)?;
+        if let Some(address) = longer_address {
+            calc.set_address(address);
+        }
         if let Some(data) = &self.data {
             match data {
                 DataOption::DataHash(data_hash) => calc.set_data_hash(data_hash),
@@ -114,6 +126,9 @@ impl TransactionOutputAmountBuilder {
         value.set_multiasset(multiasset);
 
         let mut calc = MinOutputAdaCalculator::new_empty(data_cost)?;
+        if let Some(address) = longer_address {
+            calc.set_address(address);
+        }
         calc.set_amount(&value);
         if let Some(data) = &self.data {
             match data {
